@@ -19,6 +19,16 @@ NOTE = ('Trusted: CrossHair byte-code interpreter and its str/int/list/dict/re m
 
 # id -> (level text, design ref)
 CLAIMED = {
+    'C19': ('Time as a symbolic integer: ProcessExecutor.execute with symbolic duration/timeout/exit code against the contract of '
+            'subprocess.call; and the plumbing of the timeout value to every process-starting site (act; $, %, run in every phase; programs as '
+            'text sources of file and env; run as transformer and as matcher) through the real MainProgram on generated cases, with the '
+            'timeout literal and the child duration symbolic (bounded 0..99 quick / 0..9999 thorough): the timeout= handed to the OS stub is '
+            'the value in force, exceeding it gives HARD_ERROR in that phase, cleanup still runs, the sandbox is removed. Real '
+            'termination / wall-clock bounds are outside the claim.', '4/C19'),
+    'C14': ('Real string sources (str, file, transformed, concatenated, via writer / file descriptor) over a fake text-file layer with a '
+            'SYMBOLIC text (<= 3-5 chars incl. CR, LF, FF, non-ASCII) and SYMBOLIC memory-buffer size m >= 1: every access sequence of '
+            'as_str / as_lines / write_to / as_file / freeze yields the same characters and line division; equals across source kinds; '
+            'M vs ( M && M ) vs -transformed-by identity M. One known finding (carriage return) is excluded by region.', '4/C14'),
     'C05': ('Matchers and transformers obtained from the real parsers on concrete syntax (full sdv->ddv->adv->primitive chain) applied to '
             "exactly_lib's in-memory text source holding a SYMBOLIC string (|s| <= 4..5 over {a,b,A,space,tab,newline,.}), integer operands "
             'in Z, line-matcher verdicts symbolic per line, replacement results uninterpreted; compared with an independent interpreter of '
